@@ -17,15 +17,18 @@ COMMON_NOTE = ("Trusted base: Lean 4.33 kernel (thorough tier re-checks with lea
 
 CHECKS = {
     "C01": dict(
-        technique="Lean 4 abstract recomputation theory + verified chain checker evaluated on exported real graphs (K-graph) + edit-vs-rebuild oracle",
+        technique="Lean 4 abstract recomputation theory + total-correctness proof of the literal port of attr_updates_chain (and of the keep-last merge for grouped updates) + correspondence of that port with the real chains on exported graphs (K-graph) + edit-vs-rebuild oracle",
         text=("Proved in Lean for any node/value type: a chain that is duplicate-free, closed under 'reads something edited "
               "or recomputed' and ordered after its reads turns a consistent state into a consistent state "
               "(incr_consistent); consistent states are unique given the inputs; hence any finite history of accepted "
               "edits equals the from-scratch state, undo restores. chainOk is an executable checker proved sound "
-              "(chainOk_sound); every run evaluates it, and the literal Lean port of attr_updates_chain, on the graphs "
-              "and chains exported from the real code (must match exactly). NOT proved: that the code's algorithm "
-              "always yields an accepted chain (per-graph checking stands in), and link edits (object-level chain) are "
-              "covered by the oracle only. Known findings D2, D3, D13 delimit the guarded domain and are replayed."),
+              "(chainOk_sound). The code's own algorithm is proved too: on every graph without shared ids, with mirrored "
+              "links and acyclic (three executable hypotheses that Lean evaluates on each exported real graph), the "
+              "literal port of attr_updates_chain terminates and returns a chain accepted by the checker "
+              "(code_chain_total), and the keep-last merge used for grouped updates is accepted as well "
+              "(grouped_code_chain_accepted). Every run compares the port's chains with the real ones (must match "
+              "exactly). NOT proved: graphs with shared ids (there the statement fails: D2, D13) and link edits "
+              "(object-level chain), covered by the oracle only. Known findings D2, D3, D13 delimit the guarded domain."),
         design="§7 C01"),
     "C14": dict(
         technique="Lean 4 theorems by kernel evaluation over the parameter table regenerated from /repo + K-valid correspondence (exhaustive class × parameter × invalid kind)",
@@ -169,12 +172,18 @@ CHECKS["C07"] = dict(
           "and 'leaf has a source' are covered by the oracle only."),
     design="§7 C07")
 CHECKS["C08"] = dict(
-    technique="Lean 4 theorems on the verified chain checker (update order) + executable graph invariant evaluated by Lean on exported real graphs (K-graph) + perturbation oracle",
-    text=("Proved in Lean for every graph: a chain accepted by chainOk lists each dependent exactly once, after everything it "
-          "depends on, and contains every transitive dependent of the edited inputs. graphInv (both ends, live values only, "
-          "acyclic) is evaluated by Lean on the graph exported from the real code after builds, histories, simulations and "
-          "toggles, and must agree with the direct check. Completeness (true reads ⊆ recorded ancestors) is tested by "
-          "perturbation only. Findings D2, D6, D13 are known."),
+    technique="Lean 4 theorems: the port of attr_updates_chain yields a complete, duplicate-free, dependency-respecting order and terminates; the link-bookkeeping model (Model F) keeps links mirrored under every operation; + correspondence (K-graph on exported real graphs, K-bookkeeping on operation sequences) + perturbation oracle",
+    text=("Proved in Lean: (1) a chain accepted by chainOk lists each dependent exactly once, after everything it depends "
+          "on, and contains every transitive dependent; the literal port of attr_updates_chain produces such an order and "
+          "terminates on every acyclic graph without shared ids (code_update_order_correct/terminates). (2) Model F, a "
+          "literal port of ExplainableObject.__init__, set_modeling_obj_container, add/remove_child, "
+          "ModelingObject.__setattr__ and replace_in_mod_obj_container_without_recomputation: after any sequence of "
+          "these operations that does not raise, every attached value is listed by each recorded ancestor, every listed "
+          "child is attached and records the parent, ids are unique (links_mirrored_after_any_operations); swapping "
+          "detach/attach breaks it (attach_before_detach_breaks_links). K-bookkeeping runs the model and the real code on "
+          "the same random operation sequences; graphInv is evaluated by Lean on graphs exported after builds, "
+          "histories, simulations and toggles. Completeness (true reads ⊆ recorded ancestors) is tested by perturbation "
+          "only; values held in per-usage-pattern dicts and lists are not in Model F. Findings D2, D6, D13 are known."),
     design="§7 C08")
 CHECKS["C15"] = dict(
     technique="Lean 4 recovery theorem in the abstract recomputation theory + failing-edit / injected-crash-point oracle",
